@@ -417,6 +417,8 @@ def _resolve(val, by_spec, inst):
             return by_spec[val[1]][val[2]]
         if val and val[0] == "list!":
             return [_resolve(e, by_spec, inst) for e in val[1:]]
+        if len(val) == 2 and val[0] == "raw!":        # ("raw!", value): the value as it is (not resolved, not renamed)
+            return val[1]
         if val and val[0] == "fset!":              # ("fset!", 1, 2) -> frozenset({1, 2})   (a partially ordered value)
             return frozenset(inst.v(e) for e in val[1:])
         return tuple(_resolve(e, by_spec, inst) for e in val)
